@@ -5,9 +5,12 @@
    "S": style forests (<= 3 styles, arbitrary parent links forming a forest incl. shared parents), regions with
         style, references from cues and runs, inline attributes, language / title / copyright, indentation,
         namespace prefixes *)
-EXTENDS TtmlCodec
+EXTENDS TtmlCodec, IOUtils
 CONSTANT FAM
 VARIABLES g, d, phase
+
+\* GEN_WIDE=1 (thorough tier): the families range over the whole space of rendering choices / wider truth sets
+Wide == "GEN_WIDE" \in DOMAIN IOEnv /\ IOEnv.GEN_WIDE = "1"
 vars == <<g, d, phase>>
 
 NoA == <<>>
@@ -46,7 +49,8 @@ TruthsSN(n) == {[lang |-> lg, title |-> ti, copyright |-> ti, fr |-> 0, tr |-> 0
 TruthsS == UNION {TruthsSN(n) : n \in 1..3}
 
 Truths(fam) == CASE fam = "T" -> TruthsT [] fam = "B" -> TruthsB [] fam = "S" -> TruthsS
-Vars(fam) == CASE fam = "T" -> [indents |-> {FALSE}, prefixes |-> {TRUE}]
+Vars(fam) == IF Wide THEN [indents |-> BOOLEAN, prefixes |-> BOOLEAN] ELSE
+             CASE fam = "T" -> [indents |-> {FALSE}, prefixes |-> {TRUE}]
                [] fam = "B" -> [indents |-> BOOLEAN, prefixes |-> {TRUE}]
                [] fam = "S" -> [indents |-> BOOLEAN, prefixes |-> BOOLEAN]
 
